@@ -446,6 +446,25 @@ pub fn run_with<C: VCtx>(ctx: &C, zkp: &Zkp<C>, op: &str, a: &[Value]) -> Value 
                 ),
             }
         }
+        // ONE Shuffler value answering a sequence of verifications: [pk, gens, [[proof_bytes, es, e_primes, label], ...]]
+        "check_proof_seq" => {
+            let pk = PublicKey::from_element(&C::e_in(&a[0]), ctx);
+            let gens = es_in::<C>(&a[1]);
+            let sh = Shuffler::new(&pk, &gens, ctx);
+            let steps = a[2].as_array().expect("steps");
+            Value::Array(
+                steps
+                    .iter()
+                    .map(|st| match ShuffleProof::<C>::strand_deserialize(&hex_in(&st[0])) {
+                        Err(_) => json!("de_err"),
+                        Ok(proof) => res(
+                            sh.check_proof(&proof, &cs_in::<C>(&st[1]), &cs_in::<C>(&st[2]), &hex_in(&st[3])),
+                            |b| json!(b),
+                        ),
+                    })
+                    .collect(),
+            )
+        }
         "shuffle_us" => {
             // [pk, es, e_primes, cs, n, label]
             let pk = PublicKey::from_element(&C::e_in(&a[0]), ctx);
